@@ -71,6 +71,10 @@ def ensure_facts(config="default", repo=None):
         th = tree_hash(repo)
         fdir = os.path.join(CACHE, "facts", th, config)
         if all(os.path.exists(os.path.join(fdir, c + ".json")) for c in EXPECTED):
+            try:
+                os.utime(fdir)   # most recently used: never evicted by scratch-copy fact sets
+            except OSError:
+                pass
             return fdir
         tdir = os.path.join(CACHE, "target-" + config)
         # cargo's freshness cache would skip the wrapper: drop the members' fingerprints
